@@ -73,6 +73,7 @@ class CellMeans:
     def __init__(self):
         self.table = {}
         self.seen = []
+        self.bad_design = 0       # rows whose derived columns (A:S) disagree with their A and S columns
 
     def get_params(self, deep=False):
         return {}
@@ -83,7 +84,7 @@ class CellMeans:
     def fit(self, X, y):
         X = np.asarray(X)
         y = np.asarray(y, dtype=float)
-        for a, s in set(map(tuple, X.astype(int).tolist())):
+        for a, s in set(map(tuple, X[:, :2].astype(int).tolist())):
             m = (X[:, 0].astype(int) == a) & (X[:, 1].astype(int) == s)
             self.table[(a, s)] = float(y[m].mean())
         return self
@@ -91,6 +92,8 @@ class CellMeans:
     def predict_proba(self, X):
         X = np.asarray(X)
         self.seen.append(X[:, 0].astype(int).copy())
+        if X.shape[1] >= 3:       # Q-model 'A + S + A:S': the design a learner is handed must be a design of ONE data set
+            self.bad_design += int(np.sum(np.abs(X[:, 2] - X[:, 0] * X[:, 1]) > 1e-12))
         p = np.array([self.table[(int(a), int(s))] for a, s in X[:, :2]], dtype=float)
         return np.column_stack([1 - p, p])
 
@@ -293,13 +296,15 @@ def work(job):
                 spyq = CellMeans()
                 t = StochasticTMLE(df, 'A', 'Y')
                 t.exposure_model(satL)
-                t.outcome_model('A + S', custom_model=spyq)
+                qm = 'A + S' if job['custom'] % 2 else 'A + S + A:S'     # the learner reads A and S; the product column is checked
+                t.outcome_model(qm, custom_model=spyq)
                 n_before = len(spyq.seen)
                 t.fit(p=p, samples=3, seed=job['custom'])
                 mc = spyq.seen[n_before:]
                 res[str(p)] = {'marg': float(t.marginal_outcome), 'eps': float(t.epsilon),
                                'a_frac': [float(np.mean(x)) for x in mc], 'obs_frac': float(np.mean(df['A'])),
-                               'a_is_observed': [bool((x == np.asarray(t.df['A']).astype(int)).all()) for x in mc]}
+                               'a_is_observed': [bool((x == np.asarray(t.df['A']).astype(int)).all()) for x in mc],
+                               'bad_design': spyq.bad_design, 'qmodel': qm}
             out['custom'] = res
         guard('StochasticTMLE.fit(custom_model)', custom)
     return out
@@ -731,6 +736,10 @@ def check(ctx, fails, job, out, res, snaps_ok):
             ctx.programs += 1
             ctx.disagreements_checked += 2
             want_frac = float(ptxt)
+            if r.get('bad_design'):
+                fails.append((n, 'StochasticTMLE.fit.custom-model-inconsistent-design', 'StochasticTMLE.fit(p=%s) with outcome_model(%r, custom_model=...): '
+                              'the learner was handed %d design rows whose A:S column is not the product of their A and S columns [%s]'
+                              % (ptxt, r.get('qmodel'), r['bad_design'], tagf), payload))
             if any(abs(f - want_frac) > 1e-12 for f in r['a_frac']) or not close(r['marg'], q, TOL_FIT):
                 fails.append((n, K_CUSTOM, 'StochasticTMLE.fit(p=%s, samples=3) with outcome_model(custom_model=...): the learner was asked to predict '
                               'for designs whose treatment column has mean %s (observed treatment: %s; identical to the observed column: %s) instead of %s; '
